@@ -21,7 +21,15 @@ func fieldVal[T any](obj yobj, key string) (v T, ok bool, err error) {
 	}
 
 	if val == nil {
-		return v, true, nil
+		switch any(v).(type) {
+		case yobj, yarr:
+			// A null object or array has nothing to migrate.  Report it as
+			// absent, since returning a nil map as a present value makes the
+			// callers write into it and panic.
+			return v, false, nil
+		default:
+			return v, true, nil
+		}
 	}
 
 	v, ok = val.(T)
